@@ -109,6 +109,52 @@ Definition fmt_time (ms : Z) : string :=
   if (ms =? 0)%Z then epoch_formatted
   else fmt_instant (wrap64 (ms * 1000000) / 1000000000)%Z.
 
+(* reader of the RFC 3339 UTC form YYYY-MM-DDTHH:MM:SSZ: seconds since the epoch *)
+Definition days_from_civil (y m d : Z) : Z :=
+  let y' := (if m <=? 2 then y - 1 else y)%Z in
+  let era := (y' / 400)%Z in
+  let yoe := (y' - era * 400)%Z in
+  let mp := (if 2 <? m then m - 3 else m + 9)%Z in
+  let doy := ((153 * mp + 2) / 5 + d - 1)%Z in
+  let doe := (yoe * 365 + yoe / 4 - yoe / 100 + doy)%Z in
+  (era * 146097 + doe - 719468)%Z.
+
+Fixpoint read_digits (w : nat) (acc : Z) (s : string) : option (Z * string) :=
+  match w with
+  | O => Some (acc, s)
+  | S w' => match s with
+            | String c r => match dval10 c with
+                            | Some d => read_digits w' (acc * 10 + Z.of_N d)%Z r
+                            | None => None
+                            end
+            | "" => None
+            end
+  end.
+Definition expect_char (c : ascii) (s : string) : option string :=
+  match s with
+  | String c' r => if (cN c' =? cN c)%N then Some r else None
+  | "" => None
+  end.
+Definition obind {A B} (o : option A) (f : A -> option B) : option B :=
+  match o with Some a => f a | None => None end.
+
+Definition parse_time (s : string) : option Z :=
+  obind (read_digits 4 0 s) (fun '(y, s) =>
+  obind (expect_char "-" s) (fun s =>
+  obind (read_digits 2 0 s) (fun '(m, s) =>
+  obind (expect_char "-" s) (fun s =>
+  obind (read_digits 2 0 s) (fun '(d, s) =>
+  obind (expect_char "T" s) (fun s =>
+  obind (read_digits 2 0 s) (fun '(hh, s) =>
+  obind (expect_char ":" s) (fun s =>
+  obind (read_digits 2 0 s) (fun '(mi, s) =>
+  obind (expect_char ":" s) (fun s =>
+  obind (read_digits 2 0 s) (fun '(ss, s) =>
+  if String.eqb s "Z" &&
+     ((1 <=? m) && (m <=? 12) && (1 <=? d) && (d <=? 31) && (hh <? 24) && (mi <? 60) && (ss <? 60))%Z
+  then Some (days_from_civil y m d * 86400 + hh * 3600 + mi * 60 + ss)%Z
+  else None))))))))))).
+
 (* ---------- the decision table ---------- *)
 Definition toast_marker : string := "unchanged-toast-datum".
 
@@ -263,23 +309,29 @@ Definition clear_map {V} (m : list (string * V)) : list (string * V) :=
 (* clearColValuePairs: delete(m, "old"); delete(m, "new"); Put *)
 Definition scrub_pair (p : pmap) : pmap := adel "new" (adel "old" p).
 
+(* reusedWalEntry.X = ... : one field assignment each *)
+Definition set_time (x : string) (e : wentry) := mkWE x (we_time_ms e) (we_txn e) (we_lsn e) (we_table e) (we_op e) (we_cols e).
+Definition set_time_ms (x : Z) (e : wentry) := mkWE (we_time e) x (we_txn e) (we_lsn e) (we_table e) (we_op e) (we_cols e).
+Definition set_txn (x : string) (e : wentry) := mkWE (we_time e) (we_time_ms e) x (we_lsn e) (we_table e) (we_op e) (we_cols e).
+Definition set_lsn (x : string) (e : wentry) := mkWE (we_time e) (we_time_ms e) (we_txn e) x (we_table e) (we_op e) (we_cols e).
+Definition set_table (x : string) (e : wentry) := mkWE (we_time e) (we_time_ms e) (we_txn e) (we_lsn e) x (we_op e) (we_cols e).
+Definition set_op (x : string) (e : wentry) := mkWE (we_time e) (we_time_ms e) (we_txn e) (we_lsn e) (we_table e) x (we_cols e).
+Definition set_cols (x : cmap) (e : wentry) := mkWE (we_time e) (we_time_ms e) (we_txn e) (we_lsn e) (we_table e) (we_op e) x.
+
+(* lsnBuffer.Reset(); Fprintf; Flush *)
+Definition lsn_buffer (old : string) (w : N) : string := (("" : string) ++ fmt_lsn w)%string.
+
 Definition render_with_pool (nomo : bool) (pl : pool) (choices : list nat) (c : change) : string * pool :=
   let cols0 := clear_map (p_cols pl) in
   let '(cols, w) := marshal_cols nomo c (ch_cols c) cols0 (mkW (p_vals pl) (p_pairs pl) [] [] choices) in
   let t := fmt_time (ch_time c) in
-  let buf := ((fun _ : string => "") (p_lsn pl) ++ fmt_lsn (ch_wal c))%string in   (* Reset; Fprintf; Flush *)
-  let e0 := p_entry pl in
-  let e1 := mkWE t (we_time_ms e0) (we_txn e0) (we_lsn e0) (we_table e0) (we_op e0) (we_cols e0) in
-  let e2 := mkWE (we_time e1) (ch_time c) (we_txn e1) (we_lsn e1) (we_table e1) (we_op e1) (we_cols e1) in
-  let e3 := mkWE (we_time e2) (we_time_ms e2) (ch_key c) (we_lsn e2) (we_table e2) (we_op e2) (we_cols e2) in
-  let e4 := mkWE (we_time e3) (we_time_ms e3) (we_txn e3) buf (we_table e3) (we_op e3) (we_cols e3) in
-  let e5 := mkWE (we_time e4) (we_time_ms e4) (we_txn e4) (we_lsn e4) (ch_table c) (we_op e4) (we_cols e4) in
-  let e6 := mkWE (we_time e5) (we_time_ms e5) (we_txn e5) (we_lsn e5) (we_table e5) (ch_op c) (we_cols e5) in
-  let e7 := mkWE (we_time e6) (we_time_ms e6) (we_txn e6) (we_lsn e6) (we_table e6) (we_op e6) cols in
-  let out := print (enc_entry e7) in
+  let buf := lsn_buffer (p_lsn pl) (ch_wal c) in
+  let e := set_cols cols (set_op (ch_op c) (set_table (ch_table c) (set_lsn buf (set_txn (ch_key c)
+             (set_time_ms (ch_time c) (set_time t (p_entry pl))))))) in
+  let out := print (enc_entry e) in
   (out, mkPool (w_vals w ++ w_usedv w)                       (* clearColValues *)
                (w_pairs w ++ map scrub_pair (w_usedp w))      (* clearColValuePairs *)
-               cols buf e7).
+               cols buf e).
 
 (* ---------- the stage: Marshaller.Start ---------- *)
 Record mout := mkOut {
